@@ -129,7 +129,9 @@ pub fn spec(args: &[String]) -> i32 {
                     if amer { for (p, r) in [("t͡s", "¢"), ("t͡ɬ", "ƛ"), ("d͡ɮ", "λ"), ("ɬ", "ł"), ("ɲ", "ñ")] { want = want.replace(p, r); } }
                     if want.contains('\u{FFFD}') { st.inc("c15.skipped_replacement_char"); continue }
                     let cards: Vec<String> = verif::cardinals().into_iter().map(|(g, _)| g).collect();
-                    let plus_on_dia = fin.sylls.iter().flat_map(|sy| sy.segs.iter()).any(|s| !cards.contains(&render_seg(*s)) && matches!(roms.iter().find(|r| r.matches(s)), Some(Rom { output: ROut::Plus(_), .. })));
+                    // the romaniser that applies to a segment is the first whose input matches it AND whose length condition its run meets
+                    let plus_on_dia = fin.sylls.iter().any(|sy| sy.segs.iter().enumerate().any(|(j, s)| { let run = sy.segs[j..].iter().take_while(|x| *x == s).count();
+                        !(j > 0 && sy.segs[j - 1] == *s) && !cards.contains(&render_seg(*s)) && matches!(roms.iter().find(|r| r.matches(s) && r.len_ok(run)), Some(Rom { output: ROut::Plus(_), .. })) }));
                     if a[i] != want && amer { println!("FINDING c15-romanise-differs:americanist-word from={from:?} rules={rules:?} word={w:?} printed={:?} reference={want:?} default={:?}", a[i], b[i]); }
                     else if a[i] != want && plus_on_dia { println!("FINDING c15-romanise-differs:plus-on-diacritic-segment from={from:?} rules={rules:?} word={w:?} printed={:?} reference={want:?} default={:?}", a[i], b[i]); }
                     else if a[i] != want { println!("FINDING c15-romanise-differs from={from:?} rules={rules:?} word={w:?} printed={:?} reference={want:?} default={:?}", a[i], b[i]); }
